@@ -169,6 +169,14 @@ func runPair(ci interface{}, s *vkit.Stats) error {
 	case "same":
 		y = reflect.New(t).Elem()
 		y.Set(x)
+	case "neighbour":
+		// a deep copy of x with one leaf changed minimally (integer +-1, next float, one character)
+		var ok bool
+		if y, ok = vkit.Perturb(x, c.Y); !ok {
+			y = vkit.Value(t, c.Y)
+		} else {
+			s.Class("neighbour-pairs")
+		}
 	default:
 		y = vkit.Value(t, c.Y)
 	}
@@ -281,8 +289,8 @@ func genPair() func(rt *rapid.T) interface{} {
 		c := &pairCase{T: rapid.SampledFrom(typeIdx).Draw(rt, "type")}
 		c.TName = types[c.T].String()
 		c.X = uint64(vkit.ValueCode().Draw(rt, "x"))
-		c.Rel = rapid.SampledFrom([]string{"indep", "indep", "copy", "copy", "same"}).Draw(rt, "rel")
-		if c.Rel == "indep" {
+		c.Rel = rapid.SampledFrom([]string{"indep", "indep", "copy", "copy", "same", "neighbour", "neighbour"}).Draw(rt, "rel")
+		if c.Rel == "indep" || c.Rel == "neighbour" {
 			c.Y = uint64(vkit.ValueCode().Draw(rt, "y"))
 		}
 		c.NilPat = rapid.Bool().Draw(rt, "nilpat")
